@@ -143,6 +143,18 @@ def harness_build():
     return rc, o
 
 
+def coqchk(run, module, timeout=3600):
+    """Independent re-check of a compiled module and everything it depends on; records the axiom summary."""
+    rc, o, dt = sh(['coqchk', '-silent', '-o', '-Q', '.', 'Cose', module], cwd=COQ, timeout=timeout)
+    summary = o[o.find('CONTEXT SUMMARY'):] if 'CONTEXT SUMMARY' in o else o[-800:]
+    run.notes['coqchk'] = {'module': module, 'rc': rc, 'wall_s': round(dt, 1), 'summary': ' '.join(summary.split())[:600]}
+    if rc != 0:
+        run.broke('coqchk rejects %s' % module, o[-1500:])
+    elif 'Axioms: <none>' not in ' '.join(summary.split()):
+        run.broke('coqchk reports axioms under %s' % module, summary[-1500:])
+    return rc
+
+
 def race_oracle(run, stream, timeout=3000):
     """Build the harness with the Go race detector and run one stream under it: oracle failures as usual, and every
     data race the detector reports becomes a failure with the report as the observation."""
